@@ -61,3 +61,83 @@ def c10_strace(ROOT, REPO, BUILD, LEAN, GOENV, tier, seed, sh):
         out["violations"] = [{"name": "strace", "property": "C10", "oracle": "forbidden system call while running scripts with only the built-ins",
                               "syscalls": bad[:20], "replay": " ".join(cmd)}]
     return out
+
+
+def c11_race(ROOT, REPO, BUILD, LEAN, GOENV, tier, seed, sh):
+    """Build the harness with the Go race detector and run goroutines on shared and separate evaluators."""
+    env = dict(GOENV, CGO_ENABLED="1")
+    binp = os.path.join(BUILD, "harness-race")
+    rc, out = sh(["go", "build", "-race", "-tags", "verif", "-o", binp, "."], cwd=os.path.join(ROOT, "harness"), env=env)
+    if rc != 0:
+        return {"notes": ["race build unavailable: " + out[-300:]]}
+    g, rounds = (16, 50) if tier == "quick" else (64, 500)
+    cmd = [binp, "race", "-goroutines", str(g), "-rounds", str(rounds), "-seed", str(seed)]
+    try:
+        p = subprocess.run(cmd, stdout=subprocess.PIPE, stderr=subprocess.STDOUT, text=True, timeout=3000,
+                           env=dict(os.environ, GORACE="halt_on_error=0", TZ="UTC"))
+    except Exception as e:
+        return {"notes": ["race run failed: %s" % e]}
+    res = {"notes": ["race detector: %d goroutines x %d rounds x 4 scripts on a shared evaluator + as many private evaluators: exit %d" % (g, rounds, p.returncode)]}
+    if p.returncode != 0 or "DATA RACE" in p.stdout or "RACE-RESULT" in p.stdout or "fatal error" in p.stdout:
+        res["violations"] = [{"name": "race", "property": "C11", "oracle": "data race / non-serializable result / crash under concurrent use",
+                              "output": p.stdout[-3000:], "replay": " ".join(cmd)}]
+    return res
+
+
+def c08_deep(ROOT, REPO, BUILD, LEAN, GOENV, tier, seed, sh):
+    """Pathologically long and deeply nested scripts, each in its own child process."""
+    harness = os.path.join(BUILD, "harness")
+    depths = [1000, 20000] if tier == "quick" else [1000, 20000, 200000]
+    notes, viol = [], []
+    for shape in ["paren", "array", "block", "unary", "long", "longexpr"]:
+        for d in depths:
+            cmd = [harness, "deep", "-shape", shape, "-n", str(d)]
+            try:
+                p = subprocess.run(cmd, stdout=subprocess.PIPE, stderr=subprocess.STDOUT, text=True, timeout=300,
+                                   env=dict(os.environ, GOMEMLIMIT="3GiB"))
+                rc, out = p.returncode, p.stdout
+            except subprocess.TimeoutExpired:
+                rc, out = -9, "timeout"
+            if rc != 0:
+                viol.append({"name": "deep-%s-%d" % (shape, d), "property": "C08", "oracle": "process-crashed",
+                             "detail": "exit %s: %s" % (rc, out[-500:]), "replay": " ".join(cmd)})
+            notes.append("deep %s n=%d: exit %s %s" % (shape, d, rc, out.strip()[-80:]))
+    res = {"notes": notes}
+    if viol:
+        res["violations"] = viol
+    return res
+
+
+def c09_wallclock(ROOT, REPO, BUILD, LEAN, GOENV, tier, seed, sh):
+    """Real deadlines on real loops: Run must return within a generous bound after the deadline."""
+    harness = os.path.join(BUILD, "harness")
+    cmd = [harness, "wallclock"]
+    try:
+        p = subprocess.run(cmd, stdout=subprocess.PIPE, stderr=subprocess.STDOUT, text=True, timeout=600)
+    except Exception as e:
+        return {"notes": ["wallclock run failed: %s" % e]}
+    res = {"notes": ["wall-clock: " + p.stdout.strip()[-300:]]}
+    if p.returncode != 0:
+        res["violations"] = [{"name": "wallclock", "property": "C09", "oracle": "deadline not honoured within the bound",
+                              "output": p.stdout[-2000:], "replay": " ".join(cmd)}]
+    return res
+
+
+def c20_cli(ROOT, REPO, BUILD, LEAN, GOENV, tier, seed, sh):
+    """The real evalfilter binary: `run` agrees with the library; all four sub-commands terminate normally."""
+    binp = os.path.join(BUILD, "evalfilter-cli")
+    rc, out = sh(["go", "build", "-o", binp, "./cmd/evalfilter"], cwd=REPO, env=GOENV)
+    if rc != 0:
+        return {"broken": ["cmd/evalfilter does not build: " + out[-300:]]}
+    harness = os.path.join(BUILD, "harness")
+    n = 60 if tier == "quick" else 600
+    cmd = [harness, "cli", "-bin", binp, "-n", str(n), "-seed", str(seed), "-tmp", BUILD]
+    try:
+        p = subprocess.run(cmd, stdout=subprocess.PIPE, stderr=subprocess.STDOUT, text=True, timeout=1800)
+    except Exception as e:
+        return {"notes": ["cli run failed: %s" % e]}
+    res = {"notes": ["cli: " + p.stdout.strip().split("\n")[-1][-300:]]}
+    if p.returncode != 0:
+        res["violations"] = [{"name": "cli", "property": "C20", "oracle": "command-line driver disagrees with the library / did not terminate normally",
+                              "output": p.stdout[-3000:], "replay": " ".join(cmd)}]
+    return res
